@@ -309,6 +309,53 @@ pub fn truncations(f: &Frame, world: bool) -> Vec<Mutation> {
     out
 }
 
+/// T10: two structured faults at once - a string or count fault in one field AND the body ending (header consistent) at a
+/// later field boundary, in particular at the start of a trailing variable part. Size accounting that runs ahead of the
+/// reader only shows when nothing is left to absorb the difference.
+pub fn pair_mutations(f: &Frame, limit: usize) -> Vec<Mutation> {
+    let mut out = Vec::new();
+    let firsts = field_mutations(f);
+    let mut bounds: Vec<usize> = f.fields.iter().map(|x| x.off).collect();
+    if let Some(cs) = f.comp_start {
+        bounds.push(cs);
+    }
+    bounds.push(f.plain.len());
+    bounds.sort();
+    bounds.dedup();
+    for a in firsts.iter().filter(|a| a.kind == "T7" || a.kind == "T2") {
+        // the field the first fault sits in
+        let Some(fi) = a.desc.strip_prefix("field#").and_then(|r| r.split(' ').next()).and_then(|n| n.parse::<usize>().ok()) else { continue };
+        let Some(fld) = f.fields.get(fi) else { continue };
+        let delta = a.plain.len() as i64 - f.plain.len() as i64;
+        for b in bounds.iter().filter(|b| **b >= fld.off + fld.len) {
+            let cut = *b as i64 + delta;
+            if cut < 0 || cut as usize > a.plain.len() {
+                continue;
+            }
+            let cut = cut as usize;
+            if cut == a.plain.len() && f.comp_start.is_none() {
+                continue; // nothing cut: that is the single fault itself
+            }
+            let mut m = a.clone();
+            m.kind = "T10";
+            m.desc = format!("{} + body ends at offset {} (header adjusted)", a.desc, b);
+            m.plain.truncate(cut);
+            if let Some(cs) = m.comp_start {
+                if cut as i64 <= cs as i64 + delta {
+                    m.comp_start = None;
+                }
+            }
+            out.push(m);
+        }
+    }
+    if out.len() > limit {
+        // keep an even spread
+        let n = out.len();
+        out = (0..limit).map(|i| out[i * n / limit].clone()).collect();
+    }
+    out
+}
+
 /// T4..T6, T9: sampled mutations
 pub fn random_mutation(f: &Frame, rng: &mut Rng, world: bool) -> Mutation {
     let choice = rng.below(10);
